@@ -1550,6 +1550,15 @@ func (r *Raft) InstallSnapshot(
 		return nil
 	}
 
+	// Another installation may have completed while this one waited. Never go back to a
+	// snapshot older than the one this node is at by now.
+	if r.lastIncludedIndex > request.LastIncludedIndex || r.lastApplied >= request.LastIncludedIndex {
+		if err := snapshot.Close(); err != nil {
+			r.logger.Errorf("failed to close snapshot file: error = %v", err)
+		}
+		return nil
+	}
+
 	// Restore the state machine with the snapshot.
 	// This could take a while so it's probably best that the lock is released.
 	r.snapshotting = true
